@@ -161,10 +161,21 @@ func (vm *VM) directive(ctx context.Context, text *text, d Term) error {
 		text.goals = append(text.goals, arg(0))
 		return nil
 	case procedureIndicator{name: atomInclude, arity: 1}:
-		_, b, err := vm.open(arg(0), nil)
+		f, b, err := vm.open(arg(0), nil)
 		if err != nil {
 			return err
 		}
+
+		// A file that includes itself, directly or indirectly, is an endless text.
+		for _, g := range text.including {
+			if g == f {
+				return permissionError(operationOpen, permissionTypeSourceSink, arg(0), nil)
+			}
+		}
+		text.including = append(text.including, f)
+		defer func() {
+			text.including = text.including[:len(text.including)-1]
+		}()
 
 		return vm.compile(ctx, text, string(b))
 	case procedureIndicator{name: atomEnsureLoaded, arity: 1}:
@@ -229,9 +240,10 @@ func (vm *VM) open(file Term, env *Env) (string, []byte, error) {
 }
 
 type text struct {
-	buf     clauses
-	clauses map[procedureIndicator]*userDefined
-	goals   []Term
+	buf       clauses
+	clauses   map[procedureIndicator]*userDefined
+	goals     []Term
+	including []string // The files being included.
 }
 
 func (t *text) forEachUserDefined(pi Term, f func(u *userDefined)) error {
